@@ -6,3 +6,20 @@ package store
 func (s *Storer) VerifGcNow() {
 	s.gcLog()
 }
+
+// VerifAofReaderRegistrations returns, per segment (left offset) of the current data set, how many
+// log readers are registered with it (every open log reader holds one registration on the
+// segment it reads; the collector spares a segment only while it has one).
+func (s *Storer) VerifAofReaderRegistrations() map[int64]int {
+	ds := s.getDataSet()
+	ds.mux.RLock()
+	segs := append([]*dataSetAof(nil), ds.aofSegs...)
+	ds.mux.RUnlock()
+	out := make(map[int64]int, len(segs))
+	for _, a := range segs {
+		a.mux.RLock()
+		out[a.left] = len(a.readers)
+		a.mux.RUnlock()
+	}
+	return out
+}
